@@ -12,9 +12,10 @@ from worlds import dat as D
 
 PROPERTY = 'C14'
 LEVEL = 'fault_enumeration'
-RUNS = {'quick': 8000, 'thorough': 300000}
+RUNS = {'quick': 6000, 'thorough': 200000}
 RULE = ('scenario = seeded DAT model (declarations in seeded order with spaces/tabs, header UTIM DATE TIME + non-empty subset, 0..30 rows, both date spellings) and '
         'the complete list of single-line corruptions of it: per data line drop a column / add a column / letters in a numeric token / garbage in the UTIM, DATE or '
+        'TIME token / a token copied from another column of the same line / '
         'TIME token / change one digit of a float; per header name an undeclared replacement; delete the header; per declaration delete it (used -> error, unused -> '
         'same content); whitespace changes. evaluations counts parses; non-trivial = corrupted parses whose line kind x corruption kind x position class is hit; '
         'distinct = distinct (corruption kind, line position class, outcome, rows class, separator class) tuples. exhaustive per base file over lines x kinds')
@@ -26,7 +27,7 @@ ASSUMPTIONS = [
     'can_parse_file (which by design reads one data row only) must be false when an error-corruption is at or before the first data line, and true for a healthy file with >= 1 row',
     'years 1951..2050 only (two digit year convention)',
 ]
-PROBES = ['drop_col_first', 'drop_col_middle', 'drop_col_last', 'add_col', 'letters_in_float', 'bad_utim', 'bad_date', 'bad_time', 'undeclared_header_name',
+PROBES = ['copy_token_error', 'copy_token_changed', 'drop_col_first', 'drop_col_middle', 'drop_col_last', 'add_col', 'letters_in_float', 'bad_utim', 'bad_date', 'bad_time', 'undeclared_header_name',
           'delete_used_decl', 'delete_unused_decl', 'delete_header', 'whitespace', 'digit_change', 'zero_rows', 'tab_declarations', 'date_style_A', 'date_style_B',
           'healthy_can_parse']
 
@@ -58,10 +59,21 @@ def enumerate_corruptions(model, rng):
             c = rng.randrange(3, ncol)
             out.append(['letters', ['row', r], [c, rng.pick(['12a', 'x', '1.2.3', '--5', 'N/A', '1,5'])], 'error'])
             out.append(['digit', ['row', r], [c], 'changed'])
-        out.append(['bad_utim', ['row', r], rng.pick(['12x', '1.5', 'abc', '']), 'error'])
-        out.append(['bad_date', ['row', r], rng.pick(['12Xyz20', '2020-10-12', '12Oct', 'Oct20', '32Jan20x']), 'error'])
+        out.append(['bad_utim', ['row', r], rng.pick(['12x', '1.5', 'abc', '', '99999999999999999999', '-99999999999999999']), 'error'])
+        out.append(['bad_date', ['row', r], rng.pick(['12Xyz20', '2020-10-12', '12Oct', 'Oct20', '32Jan20x', '12345678901Oct20', '12Oct99999999999', '0Oct20', '31Feb20']), 'error'])
         out.append(['bad_time', ['row', r], rng.pick(['13:05:59', '130559', '25-00-00', '13-05', 'ab-cd-ef']), 'error'])
         out.append(['whitespace', ['row', r], rng.pick(['trail', 'lead', 'double']), 'same'])
+        # a token copied from another column of the same line (a classic editing slip)
+        out.append(['copy_token', ['row', r], [1, 2], 'error'])          # TIME := DATE token
+        out.append(['copy_token', ['row', r], [2, 1], 'error'])          # DATE := TIME token
+        out.append(['copy_token', ['row', r], [1, 0], 'error'])          # UTIM := DATE token
+        if ncol > 3:
+            c = rng.randrange(3, ncol)
+            out.append(['copy_token', ['row', r], [0, c], 'changed'])    # a float column := the UTIM token (a legal number)
+            out.append(['copy_token', ['row', r], [c, 2], 'error'])      # TIME := a float token
+            if ncol > 4:
+                c2 = rng.choice([x for x in range(3, ncol) if x != c])
+                out.append(['copy_token', ['row', r], [c, c2], 'changed'])   # a float column := another float token
     return out
 
 
@@ -116,6 +128,11 @@ def apply(model, corr):
             toks[1] = params
         elif kind == 'bad_time':
             toks[2] = params
+        elif kind == 'copy_token':
+            src, dst = params
+            toks[dst] = toks[src]
+            if dst >= 3:
+                m2['rows'][target[1]]['floats'][dst - 3] = toks[src]
         elif kind == 'digit':
             c = params[0]
             old = toks[c]
@@ -221,6 +238,8 @@ def execute(scenario):
             res.probe('whitespace')
         elif kind == 'digit':
             res.probe('digit_change')
+        elif kind == 'copy_token':
+            res.probe('copy_token_' + expected)
         if outcome.startswith('other'):
             continue
         if expected == 'error':
@@ -247,11 +266,14 @@ def execute(scenario):
     return res
 
 
-def evidence_extra(ok_runs):
-    distinct = set()
-    for r in ok_runs:
-        distinct.update(r['notes'].get('distinct', []))
-    return {'evaluations': sum(r['notes'].get('evaluations', 0) for r in ok_runs), 'distinct_nontrivial': len(distinct), 'scenarios': len(ok_runs),
+def evidence_accumulate(acc, r):
+    acc.setdefault('distinct', set()).update(r['notes'].get('distinct', []))
+    acc['evaluations'] = acc.get('evaluations', 0) + r['notes'].get('evaluations', 0)
+    acc['scenarios'] = acc.get('scenarios', 0) + 1
+
+
+def evidence_extra(acc):
+    return {'evaluations': acc.get('evaluations', 0), 'distinct_nontrivial': len(acc.get('distinct', ())), 'scenarios': acc.get('scenarios', 0),
             'exhaustive': True, 'exhaustive_scope': 'for each sampled base file: every line x every applicable corruption kind of the closed list (replacement tokens seeded)'}
 
 
